@@ -34,14 +34,18 @@ func (f *FuncInfo) String() string { return FuncKey(f.Obj) }
 
 // World is the loaded program.
 type World struct {
-	Root   string
-	Fset   *token.FileSet
-	Pkgs   []*packages.Package
-	ByPath map[string]*packages.Package
-	Funcs  map[*types.Func]*FuncInfo
-	byKey  map[string]*FuncInfo
-	Named  []*types.Named // every named (non-alias) type declared in the repo
-	Tests  bool
+	Root        string
+	Fset        *token.FileSet
+	Pkgs        []*packages.Package
+	ByPath      map[string]*packages.Package
+	Funcs       map[*types.Func]*FuncInfo
+	pkgVarLit   map[*types.Var]*pkgVarLitEntry
+	refs        map[*FuncInfo][]*types.Func
+	valueFields map[*types.Var]map[*types.Func]int
+	fieldCalls  map[*types.Var][]ValueCall
+	byKey       map[string]*FuncInfo
+	Named       []*types.Named // every named (non-alias) type declared in the repo
+	Tests       bool
 
 	calls   map[*FuncInfo][]*CallSite
 	callers map[*types.Func][]*CallSite
@@ -529,6 +533,97 @@ func (w *World) TableTargets(f *FuncInfo, call *ast.CallExpr) []*types.Func {
 	return out
 }
 
+// PkgVarLit: v is a package-level variable initialised by a composite literal (or the address of one) and never
+// assigned again anywhere in its package — neither as a whole nor through a field or element, and its address is
+// not taken: the literal is what it holds. Returns the literal and the package it is written in.
+func (w *World) PkgVarLit(v *types.Var) (*ast.CompositeLit, *packages.Package) {
+	if v == nil || v.Pkg() == nil || v.Parent() != v.Pkg().Scope() {
+		return nil, nil
+	}
+	if w.pkgVarLit == nil {
+		w.pkgVarLit = map[*types.Var]*pkgVarLitEntry{}
+	}
+	if e, ok := w.pkgVarLit[v]; ok {
+		return e.lit, e.pkg
+	}
+	e := &pkgVarLitEntry{}
+	w.pkgVarLit[v] = e
+	var lit *ast.CompositeLit
+	var litPkg *packages.Package
+	written := false
+	for _, p := range w.ByPath {
+		if p.Types != v.Pkg() && !v.Exported() {
+			continue
+		}
+		p := p
+		rootIs := func(x ast.Expr) bool {
+			for {
+				switch y := ast.Unparen(x).(type) {
+				case *ast.IndexExpr:
+					x = y.X
+					continue
+				case *ast.SelectorExpr:
+					if id, ok := ast.Unparen(y.X).(*ast.Ident); ok {
+						if _, isPkg := p.TypesInfo.Uses[id].(*types.PkgName); isPkg {
+							return p.TypesInfo.Uses[y.Sel] == types.Object(v)
+						}
+					}
+					x = y.X
+					continue
+				case *ast.StarExpr:
+					x = y.X
+					continue
+				case *ast.Ident:
+					return p.TypesInfo.Uses[y] == types.Object(v)
+				}
+				return false
+			}
+		}
+		for _, file := range p.Syntax {
+			ast.Inspect(file, func(m ast.Node) bool {
+				switch y := m.(type) {
+				case *ast.AssignStmt:
+					for _, l := range y.Lhs {
+						if rootIs(l) {
+							written = true
+						}
+					}
+				case *ast.IncDecStmt:
+					if rootIs(y.X) {
+						written = true
+					}
+				case *ast.UnaryExpr:
+					if y.Op == token.AND && rootIs(y.X) {
+						written = true
+					}
+				case *ast.ValueSpec:
+					for i, nm := range y.Names {
+						if p.TypesInfo.Defs[nm] == types.Object(v) && i < len(y.Values) {
+							val := ast.Unparen(y.Values[i])
+							if u, ok := val.(*ast.UnaryExpr); ok && u.Op == token.AND {
+								val = ast.Unparen(u.X)
+							}
+							if cl, ok := val.(*ast.CompositeLit); ok {
+								lit, litPkg = cl, p
+							}
+						}
+					}
+				}
+				return true
+			})
+		}
+	}
+	if lit != nil && !written {
+		e.lit, e.pkg = lit, litPkg
+	}
+	return e.lit, e.pkg
+}
+
+type pkgVarLitEntry struct {
+	lit *ast.CompositeLit
+	pkg *packages.Package
+}
+
 // SortedFuncs returns all repo functions in stable order.
 func (w *World) SortedFuncs() []*FuncInfo {
 	var fs []*FuncInfo
@@ -606,8 +701,190 @@ func (w *World) Reach(roots []*FuncInfo, stop func(*FuncInfo) bool) map[*FuncInf
 			}
 			return true
 		})
+		// (also those held by a package-level literal the function reads, and the implementations of an interface
+		// method taken as a value)
+		for _, fn := range w.Refs(f) {
+			if fi := w.Info(fn); fi != nil && !seen[fi] {
+				seen[fi] = true
+				work = append(work, fi)
+			}
+		}
 	}
 	return seen
+}
+
+// Refs: the functions f mentions as values (a function name, a method value, a method expression — not in call
+// position): whoever receives the value may call it, which is attributed to f (also in package-level composite
+// literals of variables f reads: a struct or table of functions).
+func (w *World) Refs(f *FuncInfo) []*types.Func {
+	if w.refs == nil {
+		w.refs = map[*FuncInfo][]*types.Func{}
+	}
+	if r, ok := w.refs[f]; ok {
+		return r
+	}
+	w.refs[f] = nil
+	var out []*types.Func
+	seen := map[*types.Func]bool{}
+	var scan func(root ast.Node, info *types.Info, depth int)
+	scan = func(root ast.Node, info *types.Info, depth int) {
+		called := map[ast.Expr]bool{}
+		ast.Inspect(root, func(n ast.Node) bool {
+			if c, ok := n.(*ast.CallExpr); ok {
+				called[ast.Unparen(c.Fun)] = true
+			}
+			return true
+		})
+		ast.Inspect(root, func(n ast.Node) bool {
+			var id *ast.Ident
+			switch x := n.(type) {
+			case *ast.SelectorExpr:
+				if called[x] {
+					return true
+				}
+				id = x.Sel
+			case *ast.Ident:
+				if called[x] {
+					return true
+				}
+				id = x
+			default:
+				return true
+			}
+			switch o := info.Uses[id].(type) {
+			case *types.Func:
+				if !seen[o] {
+					seen[o] = true
+					out = append(out, o)
+					// a method of a repository interface taken as a value: whoever calls it reaches the implementations
+					if IsIfaceMethod(o) && o.Pkg() != nil && strings.HasPrefix(o.Pkg().Path(), Module) {
+						for _, impl := range w.Impls(o) {
+							if !seen[impl] {
+								seen[impl] = true
+								out = append(out, impl)
+							}
+						}
+					}
+				}
+			case *types.Var:
+				// a package variable holding a literal with functions in it
+				if depth < 2 {
+					if lit, p := w.PkgVarLit(o); lit != nil {
+						scan(lit, p.TypesInfo, depth+1)
+					}
+				}
+			}
+			return true
+		})
+	}
+	if f.Decl != nil && f.Decl.Body != nil {
+		scan(f.Decl.Body, f.Pkg.TypesInfo, 0)
+	}
+	w.refs[f] = out
+	return out
+}
+
+// ValueCall is a call through a struct field that holds function f as a value (`T{run: f}` ... `x.run(..)`).
+// Shift is 1 when f was stored as a method expression ((*T).M): the call's first argument is the receiver.
+type ValueCall struct {
+	Caller *FuncInfo
+	Call   *ast.CallExpr
+	Shift  int
+}
+
+// ValueCallers: the calls, anywhere in the repository, of a struct field into which f is stored by some composite
+// literal (field-based: every literal storing f into field F makes every call of an F a possible call of f).
+func (w *World) ValueCallers(f *types.Func) []ValueCall {
+	if w.valueFields == nil {
+		// field -> functions stored into it (with the shift of each), and field -> call sites
+		w.valueFields = map[*types.Var]map[*types.Func]int{}
+		w.fieldCalls = map[*types.Var][]ValueCall{}
+		for _, p := range w.ByPath {
+			for _, file := range p.Syntax {
+				ast.Inspect(file, func(n ast.Node) bool {
+					cl, ok := n.(*ast.CompositeLit)
+					if !ok {
+						return true
+					}
+					for _, el := range cl.Elts {
+						kv, ok := el.(*ast.KeyValueExpr)
+						if !ok {
+							continue
+						}
+						kid, ok := kv.Key.(*ast.Ident)
+						if !ok {
+							continue
+						}
+						fld, ok := p.TypesInfo.Uses[kid].(*types.Var)
+						if !ok || !fld.IsField() {
+							continue
+						}
+						var fn *types.Func
+						shift := 0
+						switch v := ast.Unparen(kv.Value).(type) {
+						case *ast.Ident:
+							fn, _ = p.TypesInfo.Uses[v].(*types.Func)
+						case *ast.SelectorExpr:
+							fn, _ = p.TypesInfo.Uses[v.Sel].(*types.Func)
+							if sel := p.TypesInfo.Selections[v]; sel != nil && sel.Kind() == types.MethodExpr {
+								shift = 1
+							}
+						}
+						if fn != nil {
+							if w.valueFields[fld] == nil {
+								w.valueFields[fld] = map[*types.Func]int{}
+							}
+							w.valueFields[fld][fn.Origin()] = shift
+						}
+					}
+					return true
+				})
+			}
+		}
+		for _, fi := range w.SortedFuncs() {
+			if fi.Decl == nil || fi.Decl.Body == nil {
+				continue
+			}
+			fi := fi
+			ast.Inspect(fi.Decl.Body, func(n ast.Node) bool {
+				c, ok := n.(*ast.CallExpr)
+				if !ok {
+					return true
+				}
+				if sel, ok := ast.Unparen(c.Fun).(*ast.SelectorExpr); ok {
+					if fld, ok := fi.Pkg.TypesInfo.Uses[sel.Sel].(*types.Var); ok && fld.IsField() && w.valueFields[fld] != nil {
+						w.fieldCalls[fld] = append(w.fieldCalls[fld], ValueCall{Caller: fi, Call: c})
+					}
+				}
+				return true
+			})
+		}
+	}
+	var out []ValueCall
+	for fld, fns := range w.valueFields {
+		shift, ok := fns[f.Origin()]
+		if !ok {
+			// stored as a method of an interface f's type implements (rm.ResourceManager.BranchCommit)
+			for stored, sh := range fns {
+				if !IsIfaceMethod(stored) || stored.Name() != f.Name() {
+					continue
+				}
+				for _, impl := range w.Impls(stored) {
+					if impl.Origin() == f.Origin() {
+						shift, ok = sh, true
+					}
+				}
+			}
+		}
+		if ok {
+			for _, vc := range w.fieldCalls[fld] {
+				vc.Shift = shift
+				out = append(out, vc)
+			}
+		}
+	}
+	sort.Slice(out, func(i, j int) bool { return out[i].Call.Pos() < out[j].Call.Pos() })
+	return out
 }
 
 // CallPath finds a shortest call chain from `from` to a function satisfying target (BFS), at most maxDepth frames.
@@ -641,6 +918,15 @@ func (w *World) CallPath(from *FuncInfo, target func(*types.Func) bool, maxDepth
 					seen[fi] = true
 					q = append(q, node{fi, append(append([]string{}, n.path...), ShortKey(c))})
 				}
+			}
+		}
+		for _, c := range w.Refs(n.f) {
+			if target(c) {
+				return append(append([]string{}, n.path...), "value "+ShortKey(c))
+			}
+			if fi := w.Info(c); fi != nil && !seen[fi] {
+				seen[fi] = true
+				q = append(q, node{fi, append(append([]string{}, n.path...), "value "+ShortKey(c))})
 			}
 		}
 	}
